@@ -258,3 +258,18 @@ def san_signature(p):
         if m: return ('ubsan:' + m.group(3).strip().split(' for ')[0][:30], os.path.basename(m.group(1)))
         return ('ubsan:?', '?')
     return None
+
+# ---------------------------------------------------------------- harness binaries
+def harness(ctx, name, variant='plain', extra_src=(), extra_flags=()):
+    """Compile /verif/harness/<name>.c against the snapshot's own archives."""
+    b = ctx.b
+    S = b.S if variant == 'plain' else b.S_asan
+    out = os.path.join(ctx.rundir, '%s.%s' % (name, variant))
+    flags = ['-g', '-O0', '-w'] if variant == 'plain' else \
+            ['-g', '-O1', '-w', '-fno-omit-frame-pointer', '-fsanitize=address,bounds', '-fno-sanitize-recover=all', '-DSTO_USE_MALLOC']
+    cmd = ['gcc'] + flags + list(extra_flags) + ['-DALDOR_VERIF', '-I' + S, os.path.join(VERIF, 'harness', name + '.c')] + list(extra_src) + \
+          [os.path.join(S, 'libstruct.a'), os.path.join(S, 'libgen.a'), os.path.join(S, 'libport.a'), '-lm', '-o', out]
+    p = run(cmd, timeout=300)
+    if p.rc != 0:
+        raise Inconclusive('harness %s (%s) does not compile against this tree: %s' % (name, variant, (p.err or p.out)[-1500:].decode(errors='replace')))
+    return out
